@@ -98,16 +98,42 @@ C12Viol(e) ==
       ELSE {}
 
 ---------------------------------------------------------------------------
+(* C10: a request that reaches the wire is one well-formed document, followed by exactly one   *)
+(* delimiter that occurs nowhere else, and the server reads the caller's value back unchanged   *)
+C10Viol(e) ==
+  IF e.local = "panic" THEN {V("Panic", "param=" \o e.param, e)}
+  ELSE IF ~e.sent THEN {}
+  ELSE IF e.delims # 1 \/ ~e.delim_at_end
+       THEN {VI("DelimiterInsideMessage", "param=" \o e.param, "classes=" \o JoinStr(e.classes), e)}
+  ELSE IF ~e.wellformed THEN {VI("RequestNotWellFormed", "param=" \o e.param, "classes=" \o JoinStr(e.classes) \o " why=" \o e.why, e)}
+  ELSE IF e.recovered # e.expected
+       THEN {VI("ValueNotCarriedUnchanged", "param=" \o e.param, "classes=" \o JoinStr(e.classes) \o " got=" \o e.recovered, e)}
+  ELSE {}
+
+---------------------------------------------------------------------------
+(* C13: every information-equivalent serialisation of a message is parsed to the same outcome *)
+C13Viol(e) ==
+  IF e.digest = e.base THEN {}
+  ELSE {VI(IF e.digest = "panic" THEN "Panic" ELSE "OutcomeDependsOnSerialisation",
+           "message=" \o e.tmpl \o (IF e.single_fail # <<>> THEN " rewrite=" \o e.single_fail[1]
+                                     ELSE " rewrites=" \o JoinStr(e.flags)),
+           "base: " \o e.base \o " / variant: " \o e.digest, e)}
+
+---------------------------------------------------------------------------
 LineViol(e) ==
   CASE e.ev = "c08" -> C08Viol(e)
     [] e.ev = "c09" -> C09Viol(e)
     [] e.ev = "c12" -> C12Viol(e)
+    [] e.ev = "c13" -> C13Viol(e)
+    [] e.ev = "c10" -> C10Viol(e)
     [] OTHER -> {V("UnknownEvent", e.ev, e)}
 
 Nontrivial(e) ==
   CASE e.ev = "c08" -> e.outcome \in {"ok", "rpcerror"}
     [] e.ev = "c09" -> e.sent
     [] e.ev = "c12" -> e.established = "yes"
+    [] e.ev = "c13" -> e.flags # <<>>
+    [] e.ev = "c10" -> e.sent /\ e.classes # <<>>
     [] OTHER -> FALSE
 
 TInit == l = 1 /\ viol = {} /\ stats = [lines |-> 0, nontrivial |-> 0]
